@@ -39,7 +39,11 @@ PROPERTY = "C02"
 LEVEL = "exploration"
 RULE = (
     "expr: Hypothesis expression trees (depth <=5 quick, <=8 thorough) over a table of 1-4 shared leaf canvases "
-    "(TextCanvas 1-4 rows of 0-6 character clusters from an ASCII / double-width CJK / combining-mark alphabet, "
+    "(TextCanvas 1-4 rows of 0-6 character clusters from an ASCII / double-width CJK / combining-mark alphabet, in "
+    "utf-8 also multi-code-point sequences, one per kind that a terminal or a sequence-aware width function treats as "
+    "one unit - emoji ZWJ sequence (wide U+200D wide; wide U+200D narrow VS16), narrow+VS16, wide+VS15, regional-"
+    "indicator pair, base+skin-tone modifier, keycap, conjoining Hangul jamo, ZERO WIDTH SPACE - for which the canvas "
+    "unit is the single code point; "
     "attribute and charset run lists cut at character boundaries and given in byte lengths, optionally not "
     "canonical / shorter than the text, optional maxcol padding, cursor, pop-up, finalized or not; SolidCanvas) "
     "with operators CanvasCombine, CanvasJoin (widths >= child), CanvasOverlay, CompositeCanvas(c), "
@@ -59,7 +63,9 @@ RULE = (
     "inside its rectangle: k columns and/or rows trimmed on one side and padded on the opposite one); the delta is "
     "taken in both directions. trim1: "
     "exhaustive (left,right) trims of every 1-row TextCanvas over a 4-symbol alphabet (<=3 chars quick, <=5 "
-    "thorough) with one attribute per character, in all six encodings. trimseq: for every such text of <=3 (thorough "
+    "thorough) with one attribute per character, in all six encodings, and over two more utf-8 alphabets made of the "
+    "multi-code-point sequences (ZWJ pair, narrow+VS16, flag pair / modifier sequence, keycap, wide+VS15, mixed ZWJ; "
+    "one attribute per sequence). trimseq: for every such text (encoding-named alphabets) of <=3 (thorough "
     "<=4) characters in the five multi-byte encodings, the histories own>8bit>own and 8bit>own>8bit, every "
     "(left,right) trim under each stage. Non-trivial (expr): >=2 operators and a trim/overlay edge that "
     "falls inside a double-width character or is applied to an operand made of several side-by-side or stacked "
@@ -68,6 +74,10 @@ RULE = (
 )
 ASSUMPTIONS = [
     "trusted base: the wcwidth table and Python codecs (vlib.widths), list slicing on cell grids (vlib.cells)",
+    "the unit of a canvas column count is the code point: the width of a row is the sum of the wcwidth-table widths "
+    "of its code points (what urwid.str_util documents: get_width(ordinal)), also inside emoji ZWJ / variation-"
+    "selector / regional-indicator / modifier sequences that a terminal may draw as one glyph; a zero-width code "
+    "point shares the cell of the nearest preceding code point that has a width",
     "generated characters are representable in the case's encoding and in the double-byte encodings (euc-jp, big5, "
     "gbk, uhc) their encoded length equals their column width; bytes are re-read under another encoding only in the "
     "direction multi-byte -> iso8859-1 (every byte string is valid 8-bit text, one column per byte; what invalid "
@@ -92,13 +102,30 @@ ENCODINGS = ["utf-8", "euc-jp", "iso8859-1", "big5", "gbk", "uhc"]
 ENC_PICK = ("utf-8", "utf-8", "utf-8", "euc-jp", "iso8859-1", "big5", "gbk", "uhc")  # generator weights
 NARROW = "iso8859-1"  # the 8-bit view used in encoding histories: every byte is one character cell
 
+# Multi-code-point sequences (utf-8 only), one per kind of sequence Unicode defines whose code points a terminal or a
+# sequence-aware width function may treat as ONE unit (UTS #51 emoji sequences, UAX #29 grapheme clusters).  For the
+# canvas every code point counts by itself (urwid.str_util measures per ordinal: get_width(o)); the grid model does the
+# same with the wcwidth table, so such a cluster is a row of ordinary wide / narrow cells with zero-width riders.
+# Every function that measures, pads, trims or cuts a row has to agree on that unit.
+SEQUENCES = [
+    "\U0001f468\u200d\U0001f469",  # emoji ZWJ sequence: wide, U+200D (zero width), wide       2+0+2 columns
+    "\U0001f3c3\u200d\u2640\ufe0f",  # ZWJ sequence with a narrow, VS16-qualified element          2+0+1+0
+    "\u2764\ufe0f",  # narrow character + VARIATION SELECTOR-16 (emoji presentation)                  1+0
+    "\u231a\ufe0e",  # wide character + VARIATION SELECTOR-15 (text presentation)                     2+0
+    "\U0001f1e9\U0001f1ea",  # flag: a pair of REGIONAL INDICATOR symbols                             2+2
+    "\U0001f44d\U0001f3fb",  # emoji modifier sequence: wide base + wide skin-tone modifier           2+2
+    "1\ufe0f\u20e3",  # keycap sequence: ASCII digit + VS16 + COMBINING ENCLOSING KEYCAP              1+0+0
+    "\u1100\u1161",  # conjoining Hangul jamo: wide leading consonant + zero-width vowel              2+0
+    "a\u200b",  # a format character (ZERO WIDTH SPACE) after a narrow one                            1+0
+]
+
 # character clusters per encoding: (visible clusters, bare zero-width marks).  The double-byte alphabets of the
 # Big5 / GBK / UHC kind hold, per class of trail byte the encoding assigns, the first double-width character in byte
 # order: trail 0x40, 0x7e, 'A'-'Z', 'a'-'z', 0x5c, 0x80, 0x81-0xa0, 0xa1, 0xfe (the comments give lead/trail bytes);
 # their ASCII letters lie inside ('a', 'x', '@', '~') and outside (' ', '1') the trail-byte range 0x40..0x7e.
 CLUSTERS = {
     "utf-8": (["a", "b", " ", "\u00e9", "e\u0301", "\u6f22", "\u5b57", "\u3042", "\u6f22\u0301", "\uff21",
-               "o\u0308\u0301", "x"], []),
+               "o\u0308\u0301", "x"] + SEQUENCES, []),
     "euc-jp": (["a", "b", "x", " ", "\u6f22", "\u5b57", "\u3042", "\uff21"], []),
     "iso8859-1": (["a", "b", "x", " ", "\u00e9", "\u00f1", "\u00a7"], []),
     "big5": (["a", "x", "@", "~", " ", "1",
@@ -977,6 +1004,9 @@ def _check_stage(a):
 
 TRIM1_SYMS = {
     "utf-8": ["a", "\u6f22", "\u00e9", "e\u0301"],
+    # two more utf-8 alphabets (case key "alpha"): the multi-code-point sequences of SEQUENCES, see there
+    "utf-8/seq-a": ["a", SEQUENCES[0], SEQUENCES[2], SEQUENCES[4]],  # ZWJ between wides, narrow+VS16, flag pair
+    "utf-8/seq-b": [SEQUENCES[5], SEQUENCES[6], SEQUENCES[3], SEQUENCES[1]],  # modifier, keycap, wide+VS15, mixed ZWJ
     "euc-jp": ["a", "\u6f22", "b", "\u3042"],
     "iso8859-1": ["a", "\u00e9", "b", "\u00f1"],
     # ASCII letter in the trail-byte range, trail byte 'A', trail byte >= 0xa1, trail byte 0x7e / 0x80 / 'a'
@@ -986,8 +1016,19 @@ TRIM1_SYMS = {
 }
 
 
+TRIM1_ALPHABETS = [(enc, enc) for enc in ENCODINGS] + [("utf-8", "utf-8/seq-a"), ("utf-8", "utf-8/seq-b")]
+
+
+def _syms(case):
+    """the 4-symbol alphabet of a trim1 / trimseq case: TRIM1_SYMS[alpha], by default the one named like the encoding"""
+    alpha = case.get("alpha") or case["enc"]
+    if alpha != case["enc"] and not alpha.startswith(case["enc"] + "/"):
+        raise Discard()
+    return TRIM1_SYMS[alpha]
+
+
 def _trim1_expr(case, view=None):
-    syms = TRIM1_SYMS[case["enc"]]
+    syms = _syms(case)
     row = [[syms[s], f"A{i}", None] for i, s in enumerate(case["s"])]
     return {
         "enc": case["enc"],
@@ -1035,18 +1076,21 @@ SUBS = {"expr": check_expr, "trim1": check_trim1, "trimseq": check_trimseq}
 # enumeration, strategies
 
 
-def _sym_width(enc, s):
-    return sum(W.char_width(ch) for ch in TRIM1_SYMS[enc][s])
+def _sym_width(alpha, s):
+    return sum(W.char_width(ch) for ch in TRIM1_SYMS[alpha][s])
 
 
 def trim1_cases(maxlen):
-    for enc in ENCODINGS:
+    for enc, alpha in TRIM1_ALPHABETS:
         for n in range(1, maxlen + 1):
             for s in itertools.product(range(4), repeat=n):
-                cols = sum(_sym_width(enc, x) for x in s)
+                cols = sum(_sym_width(alpha, x) for x in s)
                 for left in range(cols):
                     for r in range(cols - left):
-                        yield {"enc": enc, "s": list(s), "l": left, "r": r}
+                        case = {"enc": enc, "s": list(s), "l": left, "r": r}
+                        if alpha != enc:
+                            case["alpha"] = alpha
+                        yield case
 
 
 def trimseq_cases(maxlen):
@@ -1071,17 +1115,17 @@ def _trimseq_classes(case):
 
 
 def _trim1_nontrivial(case):
-    enc = case["enc"]
     col, starts = 0, set()
     for s in case["s"]:
-        if _sym_width(enc, s) == 2:
-            starts.add(col + 1)  # column holding the second half
-        col += _sym_width(enc, s)
+        for ch in _syms(case)[s]:
+            if W.char_width(ch) == 2:
+                starts.add(col + 1)  # column holding the second half
+            col += W.char_width(ch)
     return (case["l"] in starts and case["l"] > 0) or (case["r"] > 0 and (col - case["r"]) in starts)
 
 
 def _trim1_classes(case):
-    out = [f"trim1:{case['enc']}"]
+    out = [f"trim1:{case.get('alpha') or case['enc']}"]
     if _trim1_nontrivial(case):
         out.append("trim1:wide-cut")
     return out
